@@ -25,12 +25,19 @@ def sexpr(node):
     return '?' + type(node).__name__
 
 
-def parse_outcome(engine, text):
-    """('ok', sexpr) or ('exc', class name, position, value, message)."""
+def parse_outcome(engine, text, keep=None):
+    """('ok', sexpr) or ('exc', class name, position, value, message).
+    keep: a list that receives the statement / exception object, so that it
+    stays referenced the way a host keeps parsed statements around."""
     from yaql.language import exceptions as yexc
     try:
-        return ('ok', sexpr(engine(text)))
+        stmt = engine(text)
+        if keep is not None:
+            keep.append(stmt)
+        return ('ok', sexpr(stmt))
     except yexc.YaqlParsingException as e:
+        if keep is not None:
+            keep.append(e)
         return ('exc', type(e).__name__, e.position,
                 e.value if isinstance(e.value, (str, int, float, bool,
                                                 type(None))) else repr(e.value),
